@@ -1,0 +1,9 @@
+//go:build verif
+
+package libvore
+
+// Verification hooks (build tag `verif`).
+
+func (v *Vore) VerifAst() string { return v.ast.VerifDump() }
+
+func (v *Vore) VerifBytecode() string { return v.bytecode.VerifDump() }
